@@ -45,21 +45,26 @@ def widen(f, e):
     return f'(*{e}) as u32'
 
 
+def nsnap(t):
+    return max([3] + [len(v.fields) for v in t.variants])
+
+
 def oracle(t, with_mut):
     d_arms = m_arms = s_arms = ''
+    N = nsnap(t)
     for v in t.variants:
         di = next(i for i, f in enumerate(v.fields) if 'd' in f.role)
         f = v.fields[di]
         e = {'val': f'a{di} as *const u8', 'ref': f'*a{di} as *const u8', 'refref': f'**a{di} as *const u8', 'mutref': f'&**a{di} as *const u8'}[f.dty]
         d_arms += f'        {pattern(t, v, "a")} => {e},\n'
-        snap = [widen(f, f'a{i}') for i, f in enumerate(v.fields)] + ['0'] * (3 - len(v.fields))
+        snap = [widen(f, f'a{i}') for i, f in enumerate(v.fields)] + ['0'] * (N - len(v.fields))
         s_arms += f'        {pattern(t, v, "a")} => [{", ".join(snap)}],\n'
         if with_mut:
             mi = next(i for i, f in enumerate(v.fields) if 'm' in f.role)
             mexp = f'&**a{mi} as *const u8' if v.fields[mi].ty == REFTY['mutref'] else f'a{mi} as *const u8'
             m_arms += f'        {pattern(t, v, "a")} => ({mexp}, {mi}),\n'
     s = f'pub fn designated(x: &Ty) -> *const u8 {{\n    match x {{\n{d_arms}    }}\n}}\n'
-    s += f'pub fn snap(x: &Ty) -> [u32; 3] {{\n    match x {{\n{s_arms}    }}\n}}\n'
+    s += f'pub fn snap(x: &Ty) -> [u32; {N}] {{\n    match x {{\n{s_arms}    }}\n}}\n'
     if with_mut:
         s += f'pub fn designated_mut(x: &Ty) -> (*const u8, usize) {{\n    match x {{\n{m_arms}    }}\n}}\n'
     return s
@@ -98,7 +103,7 @@ def emit(modname, cfgid, kind, vspecs, with_mut, sp=None, pre='', t_override=Non
     let after = snap(&x);
     assert!(vidx(&x) == vi, "write through DerefMut changed the variant");
     let mut i = 0;
-    while i < 3 {
+    while i < NSNAP {
         if i == idx {
             assert!(after[i] == v as u32, "write through DerefMut did not reach the designated field");
         } else {
@@ -108,6 +113,7 @@ def emit(modname, cfgid, kind, vspecs, with_mut, sp=None, pre='', t_override=Non
     }
 }
 '''
+        body = body.replace('NSNAP', str(nsnap(t)))
         hs.append(h2)
     sample = dict(type_definition=render_type(t, sp), oracle=oracle(t, with_mut))
     return Module(modname, cfgid, body, hs, sample=sample, functions=FUNCTIONS)
@@ -156,6 +162,14 @@ def gen(tier, seed):
             for _ in range(6):
                 vs = [rng.choice(specs) for _ in range(rng.randint(1, 3))]
                 mods.append(emit(f'm{n:04d}', f'enum[{";".join(sid(x) for x in vs)}]/mut={int(with_mut)}', 'enum', vs, with_mut)); n += 1
+            # wide tuple / named variants (4 and 5 fields): the marker at every position, so that `..` on either side and counted wildcards show
+            for nf in (4, 5):
+                for dpos in range(nf):
+                    for vk in (('tuple', 'named') if (dpos + nf) % 2 == 0 else ('tuple',)):
+                        sp = (vk, nf, dpos, (dpos + 2) % nf if with_mut else 0, 'val', False)
+                        other = specs[(dpos * 7 + nf) % len(specs)]
+                        vs = [other, sp] if dpos % 2 else [sp, other]
+                        mods.append(emit(f'm{n:04d}', f'enum[{";".join(sid(x) for x in vs)}]/mut={int(with_mut)}/wide', 'enum', vs, with_mut)); n += 1
             # single-variant enums (an irrefutable-pattern shortcut is possible there): every spec with 2+ fields whose marker is not on field 0
             for i, sp in enumerate(specs):
                 if i % 3 == (1 if with_mut else 0) or '.m0' in sid(sp) or sid(sp)[1] == '1':
